@@ -454,6 +454,7 @@ def run_check(prop, argv=None):
             by_key.setdefault(key, (case, msg))
     reported_known = {}
     new_violations = []
+    unreproduced = []
     skipped_keys = []
     deadline = time.time() + (120 if tier == 'quick' else 900)
     if args.detect_only:
@@ -490,10 +491,22 @@ def run_check(prop, argv=None):
         if not ok:
             ok = _history_replay(prop, path, case, key, msg, args.seed)
         if not ok:
-            harness_error = ('replay of %s did not reproduce in a fresh '
-                             'interpreter: %s' % (path, log))
+            unreproduced.append('replay of %s did not reproduce in a fresh '
+                                'interpreter: %s' % (path, log))
             continue
         new_violations.append((key, msg, path))
+    if unreproduced:
+        # State leaking between the runs of one worker process (the code
+        # under test keeps something process-wide) makes some failures
+        # depend on a history longer than the prelude search tries.  If other
+        # violations of this run were confirmed by a fresh-interpreter
+        # replay, those stand and this is a note; otherwise nothing this run
+        # reports can be trusted.
+        if new_violations:
+            for u in unreproduced:
+                print('note: %s' % u)
+        else:
+            harness_error = unreproduced[0]
 
     # every open finding has a committed minimal replay: run it, so that the
     # finding is reported even if the search did not hit it, and so that a
